@@ -666,6 +666,17 @@ class Hist(object):
         # ---- the op raised
         injected = bool(r.get("injected"))
         locked = (r["exc"] == "OperationalError" and "locked" in r["msg"])
+        if (k == "add_relation" and r["exc"] == "IntegrityError" and not injected and not expect_fail and pre.l2_open
+                and op.get("level") == 2):
+            # recorded finding KF-C05-2 seen from another side: level-2 rows derived through the stale Parent links of a
+            # replaced feature are in the store (relaxation 8 leaves them unjudged), so this very row may exist already
+            links = pre.rel | pre.stale_links
+            mids = set(x for (a, x, l) in links if a == op["parent"] and l == 1)
+            if any((x, op["child"], 1) in links for x in mids):
+                self.v("C10.content", "op %d add_relation(%r, %r, 2) is refused as a duplicate: the row was derived through the former "
+                       "Parent links of a replaced feature" % (j, op["parent"], op["child"]), kind="replace_stale_parent_link")
+                self.model = pre
+                return
         if not injected and not expect_fail and not (locked and not self.strict and self.pending_gc):
             self.v("C10.content", "op %d %s raised %s: %s in a history where the model expects it to succeed" % (
                 j, k, r["exc"], r["msg"]), kind="unexpected_exception", op=k, exc=r["exc"])
